@@ -1,0 +1,23 @@
+//go:build verif
+
+package document
+
+import "github.com/benoitkugler/webrender/backend"
+
+// Read-only accessors for the verification harness (property C15): the inputs and the output of
+// resolveLinks, so that its model can be compared with the real function.
+
+// VerifC15Anchors returns the anchors map of the page (name -> position).
+func (d Page) VerifC15Anchors() map[string][2]float32 {
+	out := make(map[string][2]float32, len(d.anchors))
+	for k, v := range d.anchors {
+		out[k] = [2]float32{float32(v[0]), float32(v[1])}
+	}
+	return out
+}
+
+// VerifC15Links returns the links gathered on the page.
+func (d Page) VerifC15Links() []Link { return d.links }
+
+// VerifC15ResolveLinks calls the unexported resolveLinks.
+func (d *Document) VerifC15ResolveLinks() ([][]Link, [][]backend.Anchor) { return d.resolveLinks() }
